@@ -60,6 +60,13 @@ def run(ck: Checker, prog: Program, tier: str):
     with ck.borrow(c05, "C11.R2+"):
         ck.guard(S.check_accessor_table, ck, prog, trad, "C05.R3", c05.TABLE, c05.GUARDS)
         ck.guard(S.check_masked_reads, ck, prog, trad, "C05.R1", floor=4)
+        # the weights count accepted peaks: every writer of the accept masks (incl. the time-domain rejections acting on each
+        # azimuth) keeps the window mask and the peak mask in step
+        ck.guard(S.check_mask_lockstep, ck, prog, "C05.R4")
+    # which windows carry a peak, per azimuth: the per-window peak search of the members records NaN / False for absent peaks
+    from . import c08
+    with ck.borrow(c08, "C11.R1+"):
+        ck.guard(c08._r2, ck, prog)
     # what is reported for an azimuthal result on file are the azimuthal object's own mean / std curves
     from . import c12
     with ck.borrow(c12, "C11.R2+"):
